@@ -11,14 +11,20 @@ OPS = ["create_a", "create_b", "write_a", "write_b", "delete_a", "delete_b", "re
        "mkdir_d_s", "create_d_a", "delete_d_a", "write_d_a", "mv:/d/a:/d/b"]
 # fixed multi-step user stories whose schedules are explored more deeply (slots per operation given with each)
 STORIES = {
+    # (operations, gap after each: n fine slots | "Q" run until quiet | ("Q", n) either)
     "child-renamed-then-folder": (["mv:/d/a:/d/b", "rendir_d_e"], [2, 2]),
-    "new-child-folder-renamed-child-edited": (["create_d_n", "rendir_d_e", "write_e_n"], [1, 2, 2]),
-    "folder-renamed-recreated-child-moved-back": (["rendir_d_e", "mkdir_d", "mv:/e/a:/d/a"], [1, 1, 2]),
+    "new-child-folder-renamed-child-edited": (["create_d_n", "rendir_d_e", "write_e_n"], [("Q", 1), 2, 2]),
+    "folder-renamed-recreated-child-moved-back": (["rendir_d_e", "mkdir_d", "mv:/e/a:/d/a"], [("Q", 1), 1, 2]),
     "folder-renamed-then-emptied-and-removed": (["rendir_d_e", "delete_e_a", "rmdir:/e"], [2, 1, 1]),
-    "renamed-and-back": (["rename_a_b", "mv:/b:/a"], [3, 2]),
-    "folder-renamed-and-back": (["rendir_d_e", "mvdir:/e:/d"], [3, 2]),
-    "edited-then-renamed": (["write_a", "rename_a_b", "write_b"], [1, 2, 1]),
-    "deleted-and-recreated": (["delete_a", "create_a", "write_a"], [1, 2, 1]),
+    "renamed-and-back": (["rename_a_b", "mv:/b:/a"], [("Q", 3), 2]),
+    "folder-renamed-and-back": (["rendir_d_e", "mvdir:/e:/d"], [("Q", 3), 2]),
+    "edited-then-renamed": (["write_a", "rename_a_b", "write_b"], [("Q", 1), 2, 1]),
+    "deleted-and-recreated": (["delete_a", "create_a", "write_a"], [("Q", 1), 2, 1]),
+    "edited-three-times": (["write_a", "write_a", "write_a"], [("Q", 2), ("Q", 1), 1]),
+    "moved-into-folder-and-back": (["move_a_d", "mv:/d/a:/a"], [("Q", 2), 2]),
+    "swapped-through-a-temporary-name": (["mv:/a:/t", "mv:/b:/a", "mv:/t:/b"], [1, 1, 2]),
+    "safe-save": (["create_t", "delete_a", "mv:/t:/a"], [1, 1, 2]),
+    "folder-emptied-removed-recreated": (["delete_d_a", "rmdir_d", "mkdir_d", "create_d_a"], [1, ("Q", 1), 1, 1]),
 }
 
 
@@ -55,7 +61,7 @@ def _factory(params, env=None):
                 else:
                     op = first if (k == 0 and first) else OPS[e.choose("op", len(OPS))]
                 h.user(side, op, b"v%d" % k)
-                h.slots(story[1][k] if story else params["slots"])
+                (h.gap(story[1][k]) if story else h.slots(params["slots"]))
             h.drain()
             tl, tr = lab.tree(0), lab.tree(1)
             if tl != tr:
